@@ -531,15 +531,21 @@ def exhaustive_teardown():
     {release it, destroy its mock, move its mock, a call matching nothing (lists it in the report)}"""
     segs = []
     bounds = [(1, 1), (0, 1), (2, 2), (1, INF), (0, 0)]
-    for (lo, hi) in bounds:
+    # how the non-matching call is rejected, on which kind of function: (tag, shape, parameter term, WITH term, matching call, non-matching call, max handled)
+    variants = [('fp', 3, (1, 0), (0, 0), '1 0 0', '1 9 0', 2),        # f(int): a parameter rejects
+                ('fw', 3, (0, 0), (1, 0), '1 0 0', '1 9 0', 2),        # f(int): the parameters fit, the WITH clause rejects
+                ('zw', 140, (0, 0), (1, 5), '5 0 0', '5 0 0', 0),      # z(): no parameter at all, the WITH clause (on the constant 0) rejects every call
+                ('hp', 135, (1, 0), (0, 0), '6 0 0', '6 9 0', 2)]      # h(int,int,int): the first of three parameters rejects
+    for (tag, vsh, vp, vw, mcall, ncall, maxn) in variants:
+      for (lo, hi) in bounds:
         for n in range(0, 3):
-            if hi != INF and n > hi:
+            if (hi != INF and n > hi) or n > maxn or (tag != 'fp' and (lo, hi) not in ((1, 1), (2, 2), (0, 1))):
                 continue
             for r in range(1, 5):
                 for subset in itertools.combinations('RDMN', r):
                     for perm in itertools.permutations(subset):
-                        ops = ['mock 0', expect_line(1, 3, 0, p=((1, 0), (0, 0)), w=((0, 0),) * 3, retv=100, lo=lo, hi=hi)]
-                        ops += ['call 0 1 0 0'] * n
+                        ops = ['mock 0', expect_line(1, vsh, 0, p=(vp, (0, 0)), w=(vw, (0, 0), (0, 0)), retv=100, lo=lo, hi=hi)]
+                        ops += ['call 0 %s' % mcall] * n
                         mock, released, alive = 0, False, True
                         for o in perm:
                             if o == 'R':
@@ -553,10 +559,10 @@ def exhaustive_teardown():
                                     ops.append('mmock 0 1'); mock = 1
                             elif o == 'N':
                                 if alive:
-                                    ops.append('call %d 1 9 0' % mock)
+                                    ops.append('call %d %s' % (mock, ncall))
                         if not released:
                             ops.append('release 1')
-                        segs.append(('xt-%d-%d-%d-%s' % (lo, hi, n, ''.join(perm)), ops))
+                        segs.append(('xt-%s-%d-%d-%d-%s' % (tag, lo, hi, n, ''.join(perm)), ops))
     return segs
 
 def exhaustive_sequences():
